@@ -157,10 +157,11 @@ func (d DDoc) Render(opt RenderOpt) string {
 
 // ---- alphabets ----
 
-var D822Firsts = []string{"", "v", "v w", "v: w"}
+var D822Firsts = []string{"", "v", "v w", "v: w", "#v"}
 
 var D822ContLines = []DLine{
 	{' ', "x"}, {'\t', "x"}, {' ', " indented"}, {'\t', " indented"}, {' ', "."}, {'\t', "."}, {' ', "x  "}, {' ', "y: z"},
+	{' ', "#include <x>"}, {' ', "\ttabbed"},
 }
 
 // D822FieldShapes: every first line x every sequence of 0..maxCont continuation lines.
@@ -196,6 +197,7 @@ func D822RepFields(name string) []DField {
 		{Name: name, First: "", Cont: []DLine{{' ', "x"}, {'\t', " indented"}}},
 		{Name: name, First: "v", Cont: []DLine{{' ', "."}, {' ', "x  "}}},
 		{Name: name, First: "", Cont: []DLine{{' ', "."}, {' ', "y: z"}}},
+		{Name: name, First: "w", Cont: []DLine{{' ', "#include <x>"}, {'\t', "\ttabbed"}}},
 	}
 }
 
